@@ -885,25 +885,9 @@ func (t *fnTrans) keepsGhost(fc *FuncContract, name string) bool {
 		if "gh_"+sanitize(k) == name {
 			return true
 		}
-		for _, grp := range t.eng.contracts.GhostGroups {
-			in := false
-			if len(grp) > 1 && grp[0] == "<lead>" {
-				in = grp[1] == k
-				grp = grp[1:]
-			} else {
-				for _, n := range grp {
-					if n == k {
-						in = true
-					}
-				}
-			}
-			if !in {
-				continue
-			}
-			for _, n := range grp {
-				if "gh_"+sanitize(n) == name {
-					return true
-				}
+		for _, n := range t.eng.contracts.ghostClosure(k) {
+			if "gh_"+sanitize(n) == name {
+				return true
 			}
 		}
 	}
